@@ -465,9 +465,15 @@ def run(rng, res, tier, shard, nshards):
                 h.insert(rng.randrange(len(h) + 1), ['add_assoc', rng.randrange(64), [['live', rng.randrange(64)], ['live', rng.randrange(64)]],
                                                       [['live', rng.randrange(64)], ['live', rng.randrange(64)]][:rng.randint(1, 2)]])
             cut = rng.randrange(len(h) + 1)
-            for _ in range(rng.randint(1, 3)):
-                h.insert(rng.randrange(cut, len(h) + 1), ['remove_from_assoc', ['live', rng.randrange(64)], ['live', rng.randrange(64)]])
-            case['generate_after'] = cut if rng.random() < 0.7 else None
+            if rng.random() < 0.5:
+                # after the cut nothing is linked or unlinked as a whole: assets only leave associations
+                cut = len(h)
+                for _ in range(rng.randint(1, 5)):
+                    h.append(['remove_from_assoc', ['live', rng.randrange(64)], ['live', rng.randrange(64)]])
+            else:
+                for _ in range(rng.randint(1, 3)):
+                    h.insert(rng.randrange(cut, len(h) + 1), ['remove_from_assoc', ['live', rng.randrange(64)], ['live', rng.randrange(64)]])
+            case['generate_after'] = cut if rng.random() < 0.8 else None
         first = check_case(case, res)
         nt = res.notes.pop('_nt', False)
         res.case(digest([case['spec'], case['amodel'], case.get('history'), case.get('generate_after')]) if nt else None)
